@@ -50,7 +50,7 @@ Qed.
 Section Closed.
   Variable g : graph.
 
-  (* a page dict the generic writer refuses: entry present, not lazy, not marked Valid *)
+  (* a page dict the generic writer refuses: entry present, not marked Valid *)
   Definition refused (m : N) : Prop :=
     exists d, lookup g m = Some (FInvalid, ODict d) /\ is_page d = true.
 
@@ -174,10 +174,6 @@ Section Closed.
           destruct (is_page d) eqn:Pg; simpl in H.
           -- inversion H; subst. split; [apply ext_refl|]. right. exists d. split; [exact L|exact Pg].
           -- exact (Hgen _ H).
-        * inversion H; subst. split.
-          -- exists [(n, (MLazy, o))]. split; [reflexivity|]. intros n' r' [Hin|[]] m Hm.
-             inversion Hin; subst. simpl in Hm. destruct Hm.
-          -- left. simpl. left. reflexivity.
       + inversion H; subst. split.
         * exists [(n, (MGen wp dest, ONull))]. split; [reflexivity|]. intros n' r' [Hin|[]] m Hm.
           inversion Hin; subst. simpl in Hm. destruct Hm.
